@@ -242,6 +242,7 @@ func Main(hn Harness) {
 		defer w.Flush()
 		var cur CaseRunner
 		dead := false
+		timeouts := 0 // after a few timed-out ops the rest of the input is answered "skipped" (bounded run time)
 		closeCur := func() {
 			if cur != nil && !dead {
 				func() {
@@ -270,13 +271,14 @@ func Main(hn Harness) {
 				cur = hn.NewCase()
 			}
 			var ans string
-			if dead {
+			if dead || timeouts >= 3 {
 				ans = "skipped"
 			} else {
 				var to bool
 				ans, to = safeOp(cur, strings.Fields(line), hn.OpTimeout)
 				if to {
 					dead = true
+					timeouts++
 				}
 			}
 			fmt.Fprintf(w, "%s\t%s\n", line, ans)
